@@ -39,6 +39,29 @@ pub enum Dialect {
     Luau,
 }
 
+thread_local! {
+    static DIALECT_EVENTS: std::cell::Cell<[u64; 2]> = const { std::cell::Cell::new([0, 0]) };
+}
+
+/// Dialect-dependent operations performed by runs on this thread since the last call, as
+/// `[general, percent_star]`: `general` counts operations whose result differs between the Lua 5.1
+/// and Luau dialects of this interpreter (number -> string conversion where `%.14g` and the
+/// shortest round-trip form differ, `%` where the two definitions differ, generic `for` over a
+/// table, a call of `typeof`, `%s` of string.format given something that is neither a string nor a
+/// number); `percent_star` counts uses of the Luau-only `%*` of string.format.  A run that performs
+/// none behaves identically under both dialects.
+pub fn take_dialect_events() -> [u64; 2] {
+    DIALECT_EVENTS.with(|c| c.replace([0, 0]))
+}
+
+pub(crate) fn note_dialect_event(kind: usize) {
+    DIALECT_EVENTS.with(|c| {
+        let mut v = c.get();
+        v[kind] += 1;
+        c.set(v);
+    });
+}
+
 /// structural snapshot of a value (deep; tables printed structurally with cycle marks)
 pub type Snap = String;
 
